@@ -1841,6 +1841,10 @@ func (data *Data) DropRetentionPolicy(database, name string) error {
 		return nil
 	}
 	delete(di.RetentionPolicies, name)
+	// If this was the default policy, unset it: the default must name an existing policy.
+	if di.DefaultRetentionPolicy == name {
+		di.DefaultRetentionPolicy = ""
+	}
 
 	return nil
 }
